@@ -130,6 +130,10 @@ def render(a):
             line = "Output" + sep + '"' + item["v"] + '"'
         elif k == "nevents":
             line = "nEvents" + sep + str(item["v"])
+        elif k == "cartline":  # single-component line of the grammar (read and ignored)
+            line = tree_text(item["t"]) + sep + sep.join(item["c"])
+        elif k == "invert":
+            line = item["a"] + sep + "=" + sep + item["b"]
         else:
             raise ValueError(k)
         if nxt(6) == 0 and a.get("layout"):
